@@ -28,7 +28,8 @@ ASSUMPTIONS = [
     '"active" = set by ap_start, cleared by ap_done or ap_reset; ap_start in the same cycle as ap_done/ap_reset is not ordered by the '
     'statement: the monitor follows the adapter\'s active port in that cycle only (everywhere else the port is checked against the model)',
     '"restart" = ap_start while the adapter is inactive (Test_Axi2Reg keeps ap_start high while capturing, so ap_start while active '
-    'does not clear); "cleared" = loaded 0 and q 0; a beat and a reset/done in the same cycle leaves the adapter cleared',
+    'does not clear); "cleared" = loaded 0 and q 0; a beat and a reset/done in the same cycle leaves the adapter cleared; the restart '
+    'clause is vacuous in the reachable graph (an adapter only becomes inactive through reset/done, which already clear it)',
     'a load pulse is effective while the adapter is active; a load pulse while it is inactive may or may not be captured (both values '
     'admissible until one is offered with VALID, then the adapter is held to it)',
     'VALID persistence is the obligation "VALID stays 1 until the cycle tvalid&tready or ap_reset" (ap_done is not a reset of VALID); '
@@ -52,6 +53,15 @@ BOUNDS = {
 }
 
 Q_ALPHA = (0x00, 0x01, 0x02, 0xFF)
+
+# schedule classes named by the statement's quantifier; each must occur in the explored graph of a stand-alone adapter
+REQUIRED_COV = {
+    'Axi2Reg': ['beat_while_active', 'back_to_back_beat_overwrites', 'beat_with_reset_or_done_same_cycle', 'valid_while_inactive',
+                'cleared_by_done', 'cleared_by_reset', 'start_while_active_keeps'],
+    # ('cleared_by_restart' cannot occur: the adapter only becomes inactive through reset/done, which already clear it)
+    'Reg2Axi': ['valid_held_under_backpressure', 'load_while_beat_pending', 'reset_mid_transfer', 'done_mid_transfer',
+                'back_to_back_load_with_accept', 'sent_rises', 'load_while_inactive', 'valid_raised'],
+}
 
 
 def shards(tier):
@@ -88,9 +98,11 @@ def _ctx(hw, ins, mons):
     c.mons = mons
     c.ms = tuple(m.init for _, m, _, _ in mons)
     c.sim = hw.getSimulator()
-    # undriven wires that something reads (the n-input Or ladder leaves one dangling, unread wire behind)
-    und = {id(w) for w in core.undriven_inputs(hw) if w.sinks}
-    if und != {id(w) for w in c.free}:
+    # every poked wire must be undriven, every undriven wire that something reads must be poked
+    # (the n-input Or ladder leaves one dangling, unread wire behind)
+    und = core.undriven_inputs(hw)
+    fr = {id(w) for w in c.free}
+    if not fr <= {id(w) for w in und} or not {id(w) for w in und if w.sinks} <= fr:
         raise core.HarnessError('free wires of the design differ from the poked set: %r' %
                                 [w.getFullPath() for w in core.undriven_inputs(hw)])
     c.problem = None
@@ -260,6 +272,10 @@ def run_shard(d):
         'violations': [],
         'width_violations': [{'trace': [list(x) for x in t], 'bad': b} for t, b in ex.width_violations[:3]],
     }
+    if not ex.violations and not ex.capped and d['adapter'] in REQUIRED_COV:
+        missing = [k for k in REQUIRED_COV[d['adapter']] if not notes.get('%s:cov:%s' % (d['adapter'], k))]
+        if missing:
+            raise core.HarnessError('schedule classes of the statement never exercised in %r: %r' % (d, missing))
     for kind, trace, detail in ex.violations:
         res['violations'].append({'sig': 'C16:' + detail['sigkey'], 'shard': d,
                                   'trace': [list(x) for x in trace], 'detail': detail})
